@@ -373,6 +373,8 @@ class QCow2Snapshot:
     def open(self) -> QCow2:
         disk = copy.copy(self.qcow2)
         disk.l1_table = self.l1_table
+        # The copy carries the alignment buffer of the active disk, which holds data of the active L1 table
+        disk._buf = None
         disk.seek(0)
         return disk
 
